@@ -697,6 +697,13 @@ cgsisx(superlu_options_t *options, SuperMatrix *A, int *perm_c, int *perm_r,
 		}
 	}
 
+	/* For row-wise storage AA = transpose(A), so A**H = conj(AA): solve
+	   conj(AA)*X = B as AA*conj(X) = conj(B). */
+	if ( A->Stype == SLU_NR && options->Trans == CONJ )
+	    for (j = 0; j < nrhs; ++j)
+	        for (i = 0; i < A->nrow; ++i)
+	            Bmat[i + j*ldb].i = -Bmat[i + j*ldb].i;
+
 	/* Compute the solution matrix X. */
 	for (j = 0; j < nrhs; j++)  /* Save a copy of the right hand sides */
 	    for (i = 0; i < B->nrow; i++)
@@ -705,6 +712,13 @@ cgsisx(superlu_options_t *options, SuperMatrix *A, int *perm_c, int *perm_r,
 	t0 = SuperLU_timer_();
 	cgstrs (trant, L, U, perm_c, perm_r, X, stat, &info1);
 	utime[SOLVE] = SuperLU_timer_() - t0;
+
+	if ( A->Stype == SLU_NR && options->Trans == CONJ )
+	    for (j = 0; j < nrhs; ++j)
+	        for (i = 0; i < A->nrow; ++i) {
+	            Bmat[i + j*ldb].i = -Bmat[i + j*ldb].i;
+	            Xmat[i + j*ldx].i = -Xmat[i + j*ldx].i;
+	        }
 
 	/* Transform the solution matrix X to a solution of the original
 	   system. */
